@@ -6,12 +6,14 @@ META = {
                     "block mapping, block read/write and checksum computation are stubs (always succeed); checksum content is C14",
                     "little-endian host (the WORDS_BIGENDIAN swab paths of dirblock.c are not compiled)"],
     "outside": ["histories of operations: one operation from an arbitrary well-formed block (induction over WF), not sequences",
-                "dx_lookup as a whole (multi-level walk, root info validation), dx_link's retry loop; dx_split_leaf only on full leaves of 3..5 "
+                "dx_lookup only on 1- and 2-level trees without largedir/metadata_csum and with the hash stubbed; dx_link's retry loop; dx_split_leaf only on full leaves of 3..5 "
                 "records with the rec_len chain and name lengths fixed per query (leaves with free records: see report); "
                 "dx_grow_tree only for the interior split below a non-full parent and the 1 -> 2 level depth increase",
                 "ext2fs_expand_dir over the real block iterator/allocator (iterator, allocator, zeroing are stubs; allocation failure, bigalloc, "
                 "huge_file, extent-mapped and inline directories outside), ext2fs_mkdir / ext2fs_symlink only as protocols over stubbed callees (fault schedules, "
-                "accounting ledger, arguments), not composed with the real allocator / link / inode writer; namei path walk",
+                "accounting ledger, arguments), not composed with the real allocator / link / inode writer; do_write_internal only as a protocol over stubbed callees "
+                "and a 4-directory model of ext2fs_namei (the real namei path walk, symlink following, do_mkdir/do_mknod/do_symlink_internal "
+                "and debugfs rm/rmdir are not encoded)",
                 "link counts, dir_nlink overflow rule, release of inode and blocks by debugfs rm/rmdir/kill_file",
                 "inline-data directories, casefolded/encrypted directories (SipHash, hash-in-dirent), blocksize >= 65536 rec_len encoding",
                 "interleaving with e2fsck -D (rehash.c: see C05), e2fsck -fn verdict on the result, duplicate-name prevention (ext2fs_link does not check)",
@@ -268,12 +270,22 @@ HARNESSES.append(
     dict(name="dxlookup", src="dxlookup.c",
          funcs=["dx_lookup", "dx_search_entry", "load_logical_dir_block", "ext2fs_read_dir_block4", "ext2fs_get_dx_countlimit"],
          extra_src=["lib/ext2fs/csum.c"],
-         configs=[{"RL": 3, "LV": 1}, {"RL": 3, "LV": 0}, {"RL": 2, "LV": 2}, {"RL": 2, "_tier": "thorough"}], unwind=4,
+         configs=[{"RL": 3, "LV": 1, "HV": 2}, {"RL": 2, "LV": 2, "HV": 1}, {"RL": 2, "LV": 0}, {"RL": 2, "_tier": "thorough"}, {"RL": 3, "LV": 1, "HV": 0, "_tier": "thorough"}, {"RL": 3, "LV": 1, "HV": 1, "_tier": "thorough"}], unwind=4,
          unwindset=["main.%d:60" % i for i in range(16)] + ["ref_pick.0:8", "dx_lookup.0:4", "dx_search_entry.0:5", "dx_release.0:4",
                     "stub_read_blk64.0:60", "stub_read_blk64.1:4", "memcpy.0:60"],
          backends=["default", "kissat"],
          bound="root limit 2/3, two interior nodes of limit 5/6, hash_version and indirect_levels all 256 values, counts, pairs, "
                "s_flags, seed, directory flags and the returned hash symbolic; 1- and 2-level trees"))
+
+HARNESSES.append(
+    dict(name="writefile_p", src="writefile_p.c",
+         funcs=["do_write_internal"],
+         cut_statics={"misc/create_inode.c": ["copy_file"]},
+         configs=[{"DEST": 2}, {"DEST": 1}, {"DEST": 3, "WITH_EXTENTS": None}, {"DEST": 2, "WITH_INLINE": None}, {"DEST": 4}], unwind=4,
+         unwindset=["main.%d:20" % i for i in range(4)] + ["vf_streq.0:10", "strrchr.0:12", "memset.0:200"],
+         backends=["default", "kissat"],
+         bound="destination path one of name, d/name, /d/name, /name per query; model namespace with symbolic inode numbers (root may equal "
+               "cwd), symbolic existence of the name in each directory, all failure combinations of the callees"))
 
 def hash_unwind(maxlen):
     return ["dx_hack_hash.0:%d" % (maxlen + 2), "str2hashbuf.0:%d" % (maxlen + 2), "str2hashbuf.1:10",
